@@ -121,7 +121,7 @@ pub fn mutate(r: &mut Rng, v: &Value) -> Value {
     nodes(&v, &mut vec![], &mut all);
     let path = r.pick(&all).clone();
     let node = at(&mut v, &path);
-    match r.below(10) {
+    match r.below(13) {
         0 => *node = Value::Null,
         1 => {
             *node = r
@@ -174,6 +174,64 @@ pub fn mutate(r: &mut Rng, v: &Value) -> Value {
             // string content
             if let Value::String(s) = node {
                 *s = (*r.pick(&["", "bool", "u8", "U8", "é", "str", "i256", "u512"])).to_string();
+            }
+        }
+        10 | 11 => {
+            // serde's positional form of a struct: the members in declaration order, absent optional
+            // ones filled in; sometimes truncated or with a surplus element
+            if let Value::Object(m) = node {
+                const ORDERS: &[&[&str]] = &[
+                    &["types"],
+                    &["id", "type"],
+                    &["path", "params", "def", "docs"],
+                    &["name", "type", "typeName", "docs"],
+                    &["name", "fields", "index", "docs"],
+                    &["name", "type"],
+                    &["fields"],
+                    &["variants"],
+                    &["type"],
+                    &["len", "type"],
+                    &["bit_store_type", "bit_order_type"],
+                ];
+                let fits: Vec<&&[&str]> = ORDERS.iter().filter(|o| m.keys().all(|k| o.contains(&k.as_str()))).collect();
+                if !fits.is_empty() {
+                    let o = **r.pick(&fits);
+                    let mut a: Vec<Value> = o
+                        .iter()
+                        .map(|k| match m.get(*k) {
+                            Some(x) => x.clone(),
+                            None => match *k {
+                                "name" | "typeName" | "type" => Value::Null,
+                                _ => json!([]),
+                            },
+                        })
+                        .collect();
+                    match r.below(6) {
+                        0 => {
+                            a.pop();
+                        }
+                        1 => {
+                            let k = r.below(a.len() as u64 + 1) as usize;
+                            a.truncate(k);
+                        }
+                        2 => a.push(r.pick(&[json!(null), json!([]), json!(0)]).clone()),
+                        _ => {}
+                    }
+                    *node = Value::Array(a);
+                }
+            }
+        }
+        12 => {
+            // a unit variant as a one-member map: {"u8": null}
+            if let Value::String(s) = node {
+                let k = s.clone();
+                let val = r.pick(&[json!(null), json!(null), json!(0), json!([]), json!({})]).clone();
+                let mut m = serde_json::Map::new();
+                m.insert(k, val);
+                if r.chance(1, 6) {
+                    m.insert("u8".to_string(), Value::Null);
+                }
+                *node = Value::Object(m);
             }
         }
         _ => {
@@ -232,6 +290,19 @@ pub fn json_stream(r: &mut Rng, n: u64, thorough: bool, out: &mut Out) {
         json!({"types": [{"id": 0, "type": {"def": {"compact": {"type": 0}}, "extra": 1}, "more": []}], "x": null}),
         json!({"types": [{"id": 0, "type": {"def": {"composite": {"fields": [{"type": 0, "type_name": "x"}]}}}}]}),
         json!({"types": null}),
+        json!([[[0, [[], [], {"primitive": {"u8": null}}, []]]]]),
+        json!([[[0, [["a"], [["T", null], ["U", 3]], {"composite": [[[null, 0], ["f", 1, "X"], ["g", 1, null, ["d"]]]]}]]]]),
+        json!([[[0, [[], [["T"]], {"tuple": []}]]]]),
+        json!([[[0, [[], [], {"variant": [[["A", [], 7], ["B", [[null, 0, null, []]], 8, ["d"]]]]}, [], 1]]]]),
+        json!([[[0, [[], [], {"array": [3]}]]]]),
+        json!([[[0, [[], [], {"array": [3, 0]}]], [1, {"def": {"bitsequence": [0, 1]}}], [2, {"def": {"compact": [0]}}], [3, {"def": {"sequence": []}}]]]),
+        json!([[[0, [[], []]]]]),
+        json!([[[0]]]),
+        json!([[], 1]),
+        json!({"types": [{"id": 0, "type": {"def": {"primitive": {"u8": null, "u16": null}}}}]}),
+        json!({"types": [{"id": 0, "type": {"def": {"primitive": {"u8": 0}}}}]}),
+        json!({"types": [{"id": 0, "type": {"def": {"primitive": {}}}}]}),
+        json!({"types": [{"id": 0, "type": {"def": "composite"}}]}),
         json!([]),
         json!(null),
     ] {
